@@ -301,6 +301,44 @@ CLAIMED = {
         technique="TLA+-defined mutation families (every single-position mutation of recorded JSON documents, token mutations) "
                   "enumerated by TLC and executed against all decoders / encoders / the authorizer; TLC trace validation of recorded "
                   "truncation and byte-edit runs against the totality predicate"),
+    "C16": dict(
+        category="exploration",
+        text="spec/SchemaModel.tla defines resolution as a total function (M1: MC_SchemaGen, invariant Total: Resolve returns a resolved "
+             "schema or failure on the whole universe, fails on exactly the cyclic common-type and action graphs and on no entity-parent "
+             "graph). TLC enumerates the schemas: EVERY directed graph on three nodes (self-loops, 2- and 3-cycles, diamonds) as "
+             "entity-parent relation, as common-type reference relation and as action `in` relation, in the empty namespace and in a "
+             "namespace with qualified / unqualified references (3072 schemas), the names family (shadowing, undefined and dangling "
+             "references, built-in names) and feature schemas. Each runs in an isolated worker process: the real Resolve, both codecs "
+             "and -- where resolution succeeds -- Validator.Policy in both modes over policies derived from the resolved schema "
+             "(every entity type in every scope form and as in / is operand, every attribute, every action, literals of every kind "
+             "incl. set / record / extension VALUE nodes, and the same policies as the JSON decoder builds them), Validator.Entity / "
+             "Entities / Request over data derived from the declared shapes. Trace_Schema (Focus total): every run returned; a "
+             "worker death (fatal stack overflow), a panic or the deadline is a violation.",
+        design_ref="DESIGN.md 4 C16",
+        note=TRUSTED + "Termination is a 120 s deadline; crashes are observed over the enumerated families, not proved absent. Policies / "
+             "entities / requests are derived from each resolved schema by the harness.",
+        technique="TLA+ model of schema resolution checked total by TLC; TLC-enumerated schema graph families executed by the Go resolver, "
+                  "codecs and validator in isolated processes; TLC trace validation of the recorded runs against the totality predicate"),
+    "C17": dict(
+        category="model_checking",
+        text="spec/SchemaModel.tla is the resolution oracle: qualification, RFC 70 shadowing, common-type inlining with cycle rejection, "
+             "the disambiguation order of type references (common type, entity type, empty namespace, built-in, __cedar::), action "
+             "parents and hierarchy cycles, record contexts; M1 (MC_SchemaGen) checks it total and cycle-exact on the universe. TLC "
+             "enumerates schema ASTs: every directed graph on three nodes for the three reference relations (3072), the names family "
+             "(X as entity / common type / undeclared in the empty namespace and in N x 11 reference forms x built-in shadowing), "
+             "feature schemas (annotations with / without values and odd characters, optional and nested attributes, sets, extension "
+             "types, enumerated entities with odd values, action and attribute names that need quoting, every appliesTo shape, tags, "
+             "qualified and unqualified action parents). The harness resolves each AST with the real resolver, renders it as Cedar "
+             "schema text and as JSON, parses each back, resolves, renders again, and converts text -> JSON and JSON -> text. "
+             "Trace_Schema (Focus codec): real resolution = Resolve(schema) (same resolved schema or failure); for every schema "
+             "that resolves, each round trip parses, resolves to the same resolved schema and repeats its bytes, and both conversions "
+             "commute with resolution.",
+        design_ref="DESIGN.md 4 C17",
+        note=TRUSTED + "The two concrete syntaxes are not modelled (the statement is about commuting with resolution). ASTs without a text "
+             "form are excluded where named: an EntityTypeRef in a type position shadowed by a common type of the same name; appliesTo "
+             "with an empty principal or resource list. The code's lazy resolution of unreferenced common types is followed.",
+        technique="TLA+ specification of schema resolution as the oracle (model-checked total); TLC-enumerated schema ASTs resolved, "
+                  "rendered and reparsed by the Go code; TLC trace validation of recorded resolutions and round trips against the oracle"),
 }
 
 HOOK_COMMITS = ["82e75f7fe48a39cfaaa51c07619f57b1dcd3cfd5"]   # /repo: x/exp/verifhook/verifhook.go (//go:build verif), re-exports the policy tokenizer (C18)
